@@ -9,7 +9,7 @@ Proof.
   intros w k i w' r H. unfold call_gf in H.
   destruct (nth_error (insts w) i) as [ins|]; [|inversion H; auto].
   destruct (get w (i_cid ins)) as [c|]; [|inversion H; auto].
-  destruct (co_prec c) as [|key p]; [inversion H; auto|].
+  destruct (hier c) as [|key p]; [inversion H; auto|].
   destruct (lookup (g_cache (get_gf w k)) key); [inversion H; auto|].
   destruct (applicable (get_gf w k) (key :: p)); inversion H; auto.
 Qed.
